@@ -171,7 +171,8 @@ func c02Cases(g *Gen, s c02Setup, tags ...string) {
 
 func collectNames(m map[string]interface{}, prefix string) []string {
 	var out []string
-	for k, v := range m {
+	for _, k := range sortedKeys(m) {
+		v := m[k]
 		p := k
 		if prefix != "" {
 			p = prefix + "." + k
@@ -342,8 +343,8 @@ func genC02(g *Gen, c08 bool) {
 			for k := range parts {
 				parts[k] = map[string]interface{}{}
 			}
-			for k, v := range s.Root {
-				parts[r.Intn(np)][k] = v
+			for _, k := range sortedKeys(s.Root) {
+				parts[r.Intn(np)][k] = s.Root[k]
 			}
 			s.Parts = parts
 			c02Cases(g, s, "built:merges")
